@@ -749,10 +749,51 @@ def s8(ctx, rep):
     return n
 
 
+def restore_unconditional(ctx, rep, clause="S2"):
+    """a saved value is put back whatever it is: in the restore methods no store of a value taken from the state is guarded by the
+    truth of that value - an empty list, 0 or '' that was saved must overwrite what the fresh object was constructed with"""
+    from ..engine import deref
+    from .common import dom_guard
+    P = ctx.P
+    n = 0
+    for c in sorted(searcher_classes(ctx), key=lambda c_: c_.name):
+        for mname in ("_restore_from_state", "clone_from_state"):
+            m = c.methods.get(mname)
+            if m is None:
+                continue
+            ps = [p_ for p_ in m.params if p_ != "self"]
+            if not ps:
+                continue
+            sv = ps[0]
+            cm = cfg_of(m)
+
+            def from_state(e, depth=2):
+                e = deref(m, e)
+                if depth > 0 and any(isinstance(y, ast.Name) and y.id not in (sv, "self") and from_state(y, depth - 1) for y in ast.walk(e) if y is not e):
+                    return True
+                return any((isinstance(y, ast.Subscript) and isinstance(y.value, ast.Name) and y.value.id == sv) or
+                           (isinstance(y, ast.Call) and fn_name(y) == "get" and isinstance(y.func, ast.Attribute) and isinstance(y.func.value, ast.Name) and y.func.value.id == sv)
+                           for y in ast.walk(e))
+            for nd in cm.nodes:
+                if not (nd.kind == "stmt" and isinstance(nd.ast, ast.Assign) and any(isinstance(t, ast.Attribute) and isinstance(t.value, ast.Name) and t.value.id == "self"
+                                                                                       for t in nd.ast.targets) and from_state(nd.ast.value)):
+                    continue
+                n += 1
+                srcs = {U(y) for y in ast.walk(nd.ast.value) if isinstance(y, ast.Name)} | {U(deref(m, y)) for y in ast.walk(nd.ast.value) if isinstance(y, ast.Name)}
+                srcs |= {U(y) for y in ast.walk(deref(m, nd.ast.value)) if isinstance(y, (ast.Subscript, ast.Call))}
+                bad = [a for a in dom_guard(ctx, m, nd.id) if a[0] == "truth" and a[1] in srcs and a[2] is True]
+                rep.put(not bad, clause, "guarded_by", f"{c.name}.{mname}: `{U(nd.ast.targets[0])}` is restored whatever the saved value is", m, nd.ast, "",
+                        f"the store is guarded by the truth of the saved value ({[a[1] for a in bad]}): a saved empty list / 0 does not overwrite what the fresh "
+                        "object was constructed with - e.g. the exhausted queue of initial configurations comes back filled with the default one")
+    if n < 4:
+        raise AnchorError(f"restore methods: only {n} stores of saved values found")
+
+
 def run(ctx, rep, tier="quick"):
     sweep = tier == "thorough"
     s1(ctx, rep, sweep)
     s2(ctx, rep, sweep)
+    restore_unconditional(ctx, rep)
     s3(ctx, rep, sweep)
     s4(ctx, rep, sweep)
     s5(ctx, rep)
